@@ -223,7 +223,10 @@ def runHistory (fl : Flags) (toks : List String) : String :=
     | "ops" :: rest =>
       let s := initOfForest f
       let (_, outs) := (splitOps rest).foldl (fun (acc : St × List String) op =>
-        let r := runOp fl acc.1 op
+        -- `rep n <op>`: the op n times in a row, one answer (the last); long silent histories
+        let r := match op with
+          | "rep" :: n :: inner => (List.range (n.toNat?.getD 0)).foldl (fun (st : St × String) _ => runOp fl st.1 inner) (acc.1, ".")
+          | _ => runOp fl acc.1 op
         (r.1, r.2 :: acc.2)) (s, [])
       " ".intercalate outs.reverse
     | _ => "bad-op"
